@@ -35,6 +35,9 @@ before they existed - the three known/C12-F13-*.json - execute identically):
           only "never two results for one put, result kind = run outcome, original data" is
           judged (degraded mode; the original lets the exception escape the output task:
           wait mode / failing handler -> simulation aborted, no guard sleep for that run);
+  selfcancel (per put) the scripted coroutine ends with a CancelledError nobody requested
+          through task.cancel() of the run: raised by itself, or from a helper future that a
+          timer cancels. HEAD reports on_cancel and carries on: all clauses stay as they are;
   slowinit an InitAsync block with a slow init_async; main does not wait for wait_init():
           puts are sent (legal: is_ready()) while the simulator waits for that block, runs
           are active when the initialization completes. Always ends before the stop.
@@ -90,7 +93,8 @@ REACH_EXPECTED = ['same_instant_puts', 'put_during_run', 'put_during_guard', 'ca
                   'wall_jump_during_cleanup', 'wall_jump_two_blocks_in_cleanup',
                   'two_blocks_busy_at_stop', 'shutdown_caller_cancelled_work_pending',
                   'on_success_delivery_failed', 'put_during_slow_init',
-                  'run_active_at_init_end']
+                  'run_active_at_init_end', 'unrequested_cancel_run',
+                  'unrequested_cancel_work_follows']
 ASSUMPTIONS = [
     "the guard sleep belongs to the output task: the output stays incremented during it "
     "(docs: 'the number of active output tasks'); bounds are checked, not the exact instant",
@@ -276,6 +280,13 @@ def gen_extras(rng, plan):
         cands = [d for d in cands if d <= room]
         if cands:
             plan['slowinit'] = {'dur': rng.choice(cands)}
+    # ---- round 5
+    if rng.random() < 0.12 and puts:
+        # the user coroutine ends with a CancelledError nobody requested from the run's task:
+        # it raises one itself / it awaits a helper future that somebody else cancels
+        for p in rng.sample(puts, min(len(puts), rng.choice([1, 1, 2]))):
+            p['selfcancel'] = rng.choice(['raise', 'future'])
+            p['fail'] = False
 
 
 def execute(plan, trace=False):
@@ -341,9 +352,25 @@ def execute(plan, trace=False):
             if sc is None:
                 raise PlanError('unknown put id')
             h('begin', value, canon(blk.output))
+            how = sc.get('selfcancel')
+            if how not in (None, 'raise', 'future'):
+                raise PlanError('unknown selfcancel kind')
+            helper = timer = None
             try:
-                await asyncio.sleep(sc['dur'])
+                if how == 'future':
+                    helper = loop.create_future()
+                    timer = loop.call_later(sc['dur'], helper.cancel)
+                    await helper
+                else:
+                    await asyncio.sleep(sc['dur'])
             except asyncio.CancelledError:
+                if helper is not None and helper.cancelled():
+                    # not a cancellation of this run: somebody cancelled what it was waiting for
+                    run.fired('fault:user_coro_unrequested_cancel')
+                    h('end', value, 'selfcancelled')
+                    raise
+                if timer is not None:
+                    timer.cancel()
                 h('cancel-req', value)
                 if sc['cancel_delay']:
                     run.fired('fault:user_coro_slow_cancel')
@@ -353,6 +380,10 @@ def execute(plan, trace=False):
                         pass
                 h('end', value, 'cancelled')
                 raise
+            if how == 'raise':
+                run.fired('fault:user_coro_unrequested_cancel')
+                h('end', value, 'selfcancelled')
+                raise asyncio.CancelledError()
             if sc['fail']:
                 run.fired('fault:user_fn_raises:coro')
                 h('end', value, 'err')
@@ -719,7 +750,10 @@ def judge(run, plan, hist, st, slack_ns, guard_ns):
         elif rput.get('value') != ident or ('source' in rput) != (ident != 'STOP'):
             run.violate('C12/result-data', f"put {ident}: result carries put={rput}")
         outcome = ends.get(ident, (None, None))[1]
-        want = {'ok': 'success', 'err': 'error', 'cancelled': 'cancel', None: 'cancel'}[outcome]
+        # a coroutine ending with a CancelledError of its own is reported as cancelled too
+        # ("cancelled tasks trigger on_cancel events"); the block carries on as after any run
+        want = {'ok': 'success', 'err': 'error', 'cancelled': 'cancel', 'selfcancelled': 'cancel',
+                None: 'cancel'}[outcome]
         if rtype != want:
             run.violate('C12/wrong-result-kind',
                         f"put {ident}: run outcome {outcome}, result event {rtype}")
@@ -862,6 +896,13 @@ def judge(run, plan, hist, st, slack_ns, guard_ns):
         run.fired('reach:failed_run')
     if any(plan_p['cancel_delay'] and plan_p['id'] in creq for plan_p in plan['puts']):
         run.fired('reach:slow_cancel')
+    for ident in seq:
+        if ident in ends and ends[ident][1] == 'selfcancelled':
+            run.fired('reach:unrequested_cancel_run')
+            nontrivial = True
+            if any(j not in begins or begins[j] > ends[ident][0]
+                   for j in order[order.index(ident) + 1:]):
+                run.fired('reach:unrequested_cancel_work_follows')
     pending_at_stop = [i for i in order if i != 'STOP' and (i not in ends or ends[i][0] > st['stop_ns'])]
     if pending_at_stop:
         run.fired('reach:stop_with_pending_work')
